@@ -223,9 +223,10 @@ def get_folding_profile_section(
     else:
         delta = round(Decimal(window[2]),2)
         start = round(Decimal(window[0]), 2)
+        stop = round(Decimal(window[1]), 2)
         for (ph, dg) in profile:
             ph = round(Decimal(ph), 3)
-            if ph >= window[0] and ph <= window[1]:
+            if ph >= start and ph <= stop:
                 # distance to the nearest window point start + k*delta
                 rem = (ph - start) % delta
                 if rem < 0.05 or delta - rem < 0.05:
